@@ -1,7 +1,7 @@
 (* C06 — No input makes a decoder or a follow-up operation panic or hang.
    Statements only (copied from coq/theories by bin/mkprops); each proof is `exact <lemma>`. *)
 From Coq Require Import Ascii String ZArith List Bool Permutation.
-From GoCose Require Import Bytes Cbor CborProofs Res GoVal Obs Ecdsa EcdsaProofs Fx Headers Enc Dec Msg HashEnv Key SigVer Run TbsProofs FlowProofs DecProofs KeyProofs HdrProofs EncProofs EncCanon NoPanic Effects.
+From GoCose Require Import Bytes Cbor CborProofs Res GoVal Obs Ecdsa EcdsaProofs Fx Headers Enc Dec Msg HashEnv Key SigVer Run TbsProofs FlowProofs DecProofs KeyProofs HdrProofs EncProofs EncCanon NoPanic Effects MoreProofs.
 From GoCose.Gen Require Import Generated.
 Import ListNotations.
 Open Scope Z_scope.
@@ -66,3 +66,42 @@ Theorem C06_key_signer_verifier_never_panic :
   key_signer k <> Panic /\ key_verifier k oc <> Panic.
 Proof. exact key_signer_verifier_never_panic. Qed.
 Print Assumptions C06_key_signer_verifier_never_panic.
+
+(* follow-up operations: the encoder never panics on any Go value of the data model, at any nesting depth *)
+Theorem C06_enc_np :
+  forall g, np (enc g).
+Proof. exact enc_np. Qed.
+Print Assumptions C06_enc_np.
+
+(* re-encoding any message value never panics *)
+Theorem C06_marshal_never_panics :
+  (forall m, marshal_sign1 m <> Panic) /\ (forall m, marshal_sign1_untagged m <> Panic) /\
+  (forall s, marshal_signature s <> Panic) /\ (forall m, marshal_signmsg m <> Panic).
+Proof. exact marshal_never_panics. Qed.
+Print Assumptions C06_marshal_never_panics.
+
+(* verification never panics unless the caller's verifier does *)
+Theorem C06_sign1_verify_never_panics :
+  forall m ext vf,
+  (forall t s, vf_run vf t s <> Panic) -> fst (sign1_verify m ext vf) <> Panic.
+Proof. exact sign1_verify_never_panics. Qed.
+Print Assumptions C06_sign1_verify_never_panics.
+
+(* COSE_Sign: the verifier list is length-checked before it is indexed *)
+Theorem C06_signmsg_verify_never_panics :
+  forall m ext vfs,
+  Forall vf_total vfs -> fst (signmsg_verify m ext vfs) <> Panic.
+Proof. exact signmsg_verify_never_panics. Qed.
+Print Assumptions C06_signmsg_verify_never_panics.
+
+Theorem C06_csig_verify_never_panics :
+  forall s vf t e,
+  vf_total vf -> fst (csig_verify s vf t e) <> Panic.
+Proof. exact csig_verify_never_panics. Qed.
+Print Assumptions C06_csig_verify_never_panics.
+
+Theorem C06_verify_countersign0_never_panics :
+  forall vf t e sig,
+  vf_total vf -> fst (verify_countersign0 vf t e sig) <> Panic.
+Proof. exact verify_countersign0_never_panics. Qed.
+Print Assumptions C06_verify_countersign0_never_panics.
